@@ -855,7 +855,7 @@ func (d *Driver) writeShape(b *BlobState) (int64, int) {
 				t++
 			}
 			return int64(t)*TractLen + int64(r.Range(0, 150)), r.Range(1, 160)
-		case nt >= 2 && k < 8:
+		case nt >= 2 && k >= 4 && k < 8:
 			// across the boundary between two existing tracts
 			hiB := nt - 1
 			if hiB > d.MaxTracts-1 {
@@ -911,7 +911,7 @@ func (d *Driver) Burst(n int) {
 			}
 			off, n := d.writeShape(b)
 			if d.Wide {
-				d.statSpan(b, off, n)
+				d.statSpan(0, b, off, n, false)
 			}
 			d.StartWrite(0, b.Idx, off, n)
 		} else {
@@ -920,46 +920,51 @@ func (d *Driver) Burst(n int) {
 				continue
 			}
 			off, n := d.readShape(b)
+			if d.Wide {
+				d.statSpan(c.Idx, b, off, n, true)
+			}
 			d.StartRead(c.Idx, b.Idx, off, n)
 		}
 		d.Quiesce()
 	}
 }
 
-// statSpan counts the writes that span tracts, and among them those that start in a tract the writer has
-// cached while a tract they cover is missing from its cache although a later one is cached (a gap).
-func (d *Driver) statSpan(b *BlobState, off int64, n int) {
-	t0, t1 := int(off/TractLen), int((off+int64(n)-1)/TractLen)
-	if t1 == t0 {
+// statSpan counts the client operations whose location lookup covers more than one tract, and among them
+// those for which the client has the first tract cached, a later tract of the range missing, and enough
+// cached tracts behind the first one: a lookup answered from a cache with a gap (coverage figure).
+func (d *Driver) statSpan(client int, b *BlobState, off int64, n int, read bool) {
+	t0, e := int(off/TractLen), int((off+int64(n)-1)/TractLen)+1
+	if read {
+		e++ // a read also asks for the tract after its range
+	}
+	if nt := d.Cl.D.NumTracts(b.ID); e > nt {
+		e = nt
+	}
+	if e-t0 < 2 {
 		return
 	}
-	vw.Stat("wide.span_writes", 1)
+	kind := "write"
+	if read {
+		kind = "read"
+	}
+	vw.Stat("wide.multi_tract_lookup."+kind, 1)
 	has := func(t int) bool {
-		tis, ok := blb.VerifCachedTracts(d.Cl.Cli[0], b.ID, t, t+1)
+		tis, ok := blb.VerifCachedTracts(d.Cl.Cli[client], b.ID, t, t+1)
 		return ok && len(tis) == 1
 	}
-	pat := ""
-	for t := 0; t <= d.MaxTracts; t++ {
-		if has(t) {
-			pat += "1"
-		} else {
-			pat += "0"
-		}
-	}
-	vw.Stat("dbg.cache."+pat, 1)
 	if !has(t0) {
 		return
 	}
-	vw.Stat("dbg.span_t0_cached", 1)
-	later := false
-	for t := t1 + 1; t < d.MaxTracts+1; t++ {
-		later = later || has(t)
-	}
-	for t := t0 + 1; t <= t1; t++ {
-		if !has(t) && (later || t < t1 && has(t1)) {
-			vw.Stat("wide.span_over_cache_gap", 1)
-			return
+	missing, behind := false, 0
+	for t := t0; t <= d.MaxTracts; t++ {
+		if has(t) {
+			behind++
+		} else if t < e {
+			missing = true
 		}
+	}
+	if missing && behind >= e-t0 {
+		vw.Stat("wide.lookup_over_cache_gap."+kind, 1)
 	}
 }
 
@@ -1136,7 +1141,7 @@ func (d *Driver) Actions() []Action {
 				b := d.Blobs[d.R.Intn(len(d.Blobs))]
 				off, n := d.writeShape(b)
 				if d.Wide {
-					d.statSpan(b, off, n)
+					d.statSpan(0, b, off, n, false)
 				}
 				d.StartWrite(0, b.Idx, off, n)
 			}})
@@ -1147,6 +1152,9 @@ func (d *Driver) Actions() []Action {
 				acts = append(acts, Action{w.Read, func() {
 					b := d.Blobs[d.R.Intn(len(d.Blobs))]
 					off, n := d.readShape(b)
+					if d.Wide {
+						d.statSpan(c.Idx, b, off, n, true)
+					}
 					d.StartRead(c.Idx, b.Idx, off, n)
 				}})
 			}
